@@ -180,10 +180,13 @@ def run_special(pid, tier, seed, work, cfg):
                 # equal to 1 within rounding, falls on different sides in the two builds)
                 key = "C19:ray-vertex-count-sensitivity" if name.startswith("ray_") and abs(len(a) - len(b)) <= 2 * nd_ else "C19:shape"
                 dd = cj["desc"]["d"]
-                if name == "ray_True" and (len(a) == 0 or len(b) == 0) and max(dd) / min(dd) >= 4:
+                de = cj["desc"]
+                on_hull = any(abs(de["src"][k_] - de["o"][k_]) <= 1e-9 * dd[k_] or abs(de["src"][k_] - de["o"][k_] - dd[k_] * de["cells"][k_]) <= 1e-9 * dd[k_]
+                              for k_ in range(de["nd"]))
+                if name == "ray_True" and (len(a) == 0 or len(b) == 0) and (max(dd) / min(dd) >= 4 or on_hull):
                     # known finding F19: in strongly elongated cells grid-honouring rays exhaust their budget very often
                     # (they stall on grid lines, F15), and whether a given ray does differs between the two builds
-                    key = "C19:honor-grid-budget-sensitivity-elongated-cells"
+                    key = "C19:honor-grid-budget-sensitivity"
                 res["violations"].append({"key": key, "what": f"{name}: {len(a) // nd_ if name.startswith('ray') else len(a)} vs {len(b) // nd_ if name.startswith('ray') else len(b)} entries", "replay": cj["desc"]})
                 continue
             fin = [abs(x) for x in a + b if math.isfinite(x) and abs(x) < 0.99e5]
